@@ -2,6 +2,11 @@
 use crate::ctx::{Ctx, Meta};
 
 pub mod c01;
+pub mod c02;
+pub mod c03;
+pub mod c04;
+pub mod c05;
+pub mod common;
 
 pub struct Prop {
     pub id: &'static str,
@@ -16,6 +21,10 @@ pub struct Prop {
 
 pub static PROPS: &[Prop] = &[
     Prop { id: "C01", run: c01::run, meta: c01::meta, single_process: false, budget_quick_s: 120, budget_thorough_s: 900, handles_foreign_panics: false },
+    Prop { id: "C02", run: c02::run, meta: c02::meta, single_process: false, budget_quick_s: 120, budget_thorough_s: 900, handles_foreign_panics: false },
+    Prop { id: "C03", run: c03::run, meta: c03::meta, single_process: false, budget_quick_s: 120, budget_thorough_s: 900, handles_foreign_panics: false },
+    Prop { id: "C04", run: c04::run, meta: c04::meta, single_process: false, budget_quick_s: 120, budget_thorough_s: 900, handles_foreign_panics: false },
+    Prop { id: "C05", run: c05::run, meta: c05::meta, single_process: false, budget_quick_s: 120, budget_thorough_s: 900, handles_foreign_panics: false },
 ];
 
 pub fn find(id: &str) -> Option<&'static Prop> {
